@@ -78,3 +78,23 @@ SPECS["C03"] = {
     "trusted_base": ["pyvc VC generator and its built-in models", "z3 5.1.0 / cvc5 1.0.3"],
     "assumptions": [],
 }
+
+
+def _tr_shapes(name):
+    from contracts import transcoder as t
+    return [f"smpl_extract.transcoder:{name}[{'x'.join(str(c) for c in sh)}]" for sh in t.SHAPES]
+
+
+SPECS["C12"] = {
+    "level": "proof",
+    "level_text": "proved: block sizing (one common frame count >= 1 for any block-size constant), whole-frame truncation, pass-through blocks and their concatenation (= the window's whole frames, any length), channel-count check, pass-through iff same encoding, ONE byte-swap flag PER CHANNEL in channel order and input/output swap steps matching source/host/destination byte orders - for every stream shape up to 3 streams / 3 channels with all other values symbolic. The numpy index mapping of decode_frame / encode_frame and the multi-stream stop condition are covered by a bounded stand-in on real numpy (exhaustive over the stated small scope) - labelled bounded",
+    "level_note": "trusted: pyvc engine, z3; numpy (frombuffer/reshape/T/vstack/byteswap/pad/tobytes) is exercised for real in the bounded stand-in, not modelled; shapes limited to <= 3 streams",
+    "contracts": ["smpl_extract.transcoder:resize_buffer", "smpl_extract.transcoder:get_num_frames_possible",
+                  "smpl_extract.transcoder:PassthroughTranscoder.__next__"] +
+                 [f"lemma:passthrough_concatenation[frame={f}]" for f in (1, 2, 4, 6, 8)] +
+                 _tr_shapes("get_buffer_sizes") + _tr_shapes("make_transcoder"),
+    "bounded": [("contracts.transcoder", "bounded:transcode")],
+    "trusted_base": ["pyvc VC generator and its built-in models", "z3 5.1.0 / cvc5 1.0.3"],
+    "not_covered": ["decode_frame / encode_frame / pad_channels / PipelineTranscoder.__next__ at the level of numpy index arithmetic: bounded stand-in only"],
+    "assumptions": ["default argument target_size of get_num_frames_possible equals the module constant"],
+}
